@@ -1,17 +1,17 @@
 SPECIFICATION Spec
 CONSTANTS
-  Cap = 2
-  K = 2
+  Cap = 1
+  K = 3
   Types = {"a", "b"}
   Ctxs = {"c1"}
-  MaxEv = 4
-  MaxCrash = 2
-  MaxFlush = 2
-  MaxCompact = 2
+  MaxEv = 6
+  MaxCrash = 1
+  MaxFlush = 1
+  MaxCompact = 4
   Fix = {"prune-by-content", "replay-skips-published", "live-from-index", "reads-use-index", "alloc-past-wal", "replay-sorted-by-id", "alloc-fresh-dirs"}
-  FlushCrash = {"start", "partial", "written", "published", "cleared"}
+  FlushCrash = {}
   CompactCrash = {"out", "idx", "norecl"}
-  QuiescentCrash = TRUE
+  QuiescentCrash = FALSE
   CleanRestarts = TRUE
 INVARIANTS Durable NoForeign ReplayInOrder IndexedComplete FreshL0
 PROPERTIES CompactionPreserves PublishedImmutable
